@@ -459,14 +459,20 @@ def run(ctx):
         except Exception as e:  # noqa: BLE001
             viol("%s|raises|%s" % (kind, type(e).__name__), "%s on %s raised %s: %s" % (kind, ienc(it), type(e).__name__, str(e)[:200]), rp)
     # subsets given in any order, with repeats and values counted from the end: the atoms follow the list as numpy indexing would
+    # (model: isubsetL, driver `itopsubsetl`; theorem c04_isubsetL_sorted makes the ordered subset its special case)
+    lreqs, lmeta = [], []
     for k in range(ctx.n(30, 200)):
         it = itops[rng.randrange(NI)]
-        top = build_i(md, it)
-        n = top.n_atoms
+        n = len(it["order"])
         if n == 0:
             continue
         idx = [rng.randrange(-n, n) for _ in range(rng.randrange(1, 8))] if k % 2 else rng.sample(range(n), rng.randrange(1, n + 1))
-        ctx.case(None, ("subset-order", k)); ctx.count("calls:subset in arbitrary order")
+        lreqs.append("itopsubsetl %s %s" % (ienc(it), ",".join(str(i % n) for i in idx))); lmeta.append((it, idx))
+    lmodel = ctx.driver.query(lreqs) if ctx.driver_ok else [None] * len(lreqs)
+    for (it, idx), m in zip(lmeta, lmodel):
+        top = build_i(md, it)
+        n = top.n_atoms
+        ctx.case(None, ("subset-order", ienc(it), tuple(idx))); ctx.count("calls:subset in arbitrary order")
         with warnings.catch_warnings():
             warnings.simplefilter("ignore")
             try:
@@ -476,18 +482,13 @@ def run(ctx):
                 continue
         cores = iatom_cores(ienc(it))
         want = [cores[i % n] for i in idx]
-        got = iatom_cores(idump(sub))
+        got_text = idump(sub)
+        got = iatom_cores(got_text)
         resn = lambda t_, i_: (t_.atom(i_).residue.name, int(t_.atom(i_).residue.resSeq), t_.atom(i_).residue.chain.chain_id)
         if got != want or [resn(sub, j) for j in range(sub.n_atoms)] != [resn(top, i % n) for i in idx]:
             viol("subset|given-order", "subset(%s) of %s: atoms %s, numpy indexing of the atom list gives %s" % (idx, ienc(it), got, want), dict(top=ienc(it), keep=idx))
-        norm = [i % n for i in idx]
-        first = {}
-        for j, i in enumerate(norm):
-            first.setdefault(i, j)
-        wb = sorted((min(first[b[0]], first[b[1]]), max(first[b[0]], first[b[1]])) for b in it["d"]["bonds"] if b[0] in first and b[1] in first)
-        gb = sorted((min(b[0].index, b[1].index), max(b[0].index, b[1].index)) for b in sub.bonds)
-        if gb != wb:
-            viol("subset|given-order|bonds", "subset(%s) of %s: bonds %s, expected %s" % (idx, ienc(it), gb, wb), dict(top=ienc(it), keep=idx))
+        if m is not None and m != got_text:
+            ctx.broke("correspondence:subset-list", "top %s idx %s: impl %s model %s" % (ienc(it), idx, got_text, m))
     # .pdb: the file groups the atoms by residue; every atom must come back with its own coordinates
     for k in range(ctx.n(20, 150)):
         it = gen_itop(rng, pdb_safe=True)
